@@ -98,6 +98,9 @@ type WsHeader struct {
 
 const WsMagicStr = "258EAFA5-E914-47DA-95CA-C5AB0DC85B11"
 
+// WsMaxPayloadLength ReadWsPayload refuses frames that announce a longer payload
+const WsMaxPayloadLength = 1 << 20
+
 func MakeWsFrameHeader(wsHeader WsHeader) (buf []byte) {
 	headerSize := 2
 	payload := uint64(0)
@@ -227,6 +230,10 @@ func ReadWsPayload(r *bufio.Reader) ([]byte, error) {
 		}
 
 		h.MaskKey = bele.BeUint32(buf)
+	}
+
+	if h.PayloadLength > WsMaxPayloadLength {
+		return nil, fmt.Errorf("payload too large. length=%d", h.PayloadLength)
 	}
 
 	payload := make([]byte, h.PayloadLength)
